@@ -78,11 +78,16 @@ def generate(ctx):
             if inp["built"][0] != "ok":
                 continue
             names = [nm for nm, _ in schema]
-            nf, labels, label_kind = fo.make_frame(rng, inp)
-            rows = fo.rows_rm(inp["ca"])
-            repeated = len(set(labels)) != len(labels)
             kind = ["reduce"] * 7 + ["count", "count_by", "reduce_dotted"]
             kind = kind[i % len(kind)]
+            # every other counting / dotted-output case runs on REPEATED labels (anything that goes through the labels instead
+            # of the positions - a groupby, a join - merges or multiplies rows there)
+            forced = None
+            if kind != "reduce" and (i // 10) % 2 == 0:
+                forced = ["repeats", "str_repeats"][(i // 20) % 2]
+            nf, labels, label_kind = fo.make_frame(rng, inp, label_kind=forced)
+            rows = fo.rows_rm(inp["ca"])
+            repeated = len(set(labels)) != len(labels)
             before = fo.snapshot(nf)
             if kind.startswith("reduce"):
                 # now and then a base column named like a field of the nest (the same name in two layers, asked for in one call)
